@@ -164,6 +164,7 @@ def stress_plan(variants, thorough):
         plan.append((v, "counter", [n, it // scale]))
         plan.append((v, "hcounter", [n, it // (2 * scale)]))        # shadow holder count: any overlap, not only a lost update
         plan.append((v, "twolocks", [3, it // (4 * scale)]))        # two objects, alone and nested
+        plan.append((v, "trynb", [3, it // (8 * scale)]))           # trylock returns while another thread holds the lock
         if thorough and v != "sim":
             # three or more threads inside lock at once (two spinning while one holds): hand-off defects need it
             plan.append((v, "counter", [3, it // scale]))
@@ -174,6 +175,7 @@ def stress_plan(variants, thorough):
             plan.append((v, "hcounter", [n, it], "plain"))
     plan.append(("c11", "mcounter", [n, it // 4]))          # the posix mutex itself
     plan.append(("c11", "mtwolocks", [3, it // 8]))
+    plan.append(("c11", "mtrynb", [3, it // 8]))
     return plan
 
 
@@ -184,6 +186,7 @@ def quick_plan(variants):
         scale = 2 if v == "sim" else 1
         plan += [(v, "hcounter", [4, 40000 // scale]), (v, "counter", [3, 30000 // scale]), (v, "twolocks", [3, 15000 // scale])]
     plan += [("c11", "hcounter", [4, 100000], "plain"), ("c11", "mcounter", [4, 20000]), ("c11", "mtwolocks", [3, 10000])]
+    plan += [(v, "trynb", [3, 3000]) for v in variants] + [("c11", "trynb", [3, 20000], "plain"), ("c11", "mtrynb", [3, 3000])]
     return plan
 
 
